@@ -116,6 +116,10 @@ package multiplex
 //@   ensures [unlocked] !held(m.connLock) && rheld(m.connLock) == 0
 //@   ensures [failstop] done(m.closeOnce)
 //@   loop 1 invariant wfMux(m) && !held(m.connLock) && rheld(m.connLock) == 0
+// routing (C10): what is queued is the buffer that was just filled from the trunk, whole, on
+// the queue of the connection registered under the id of the frame header
+//@   at call chan.send assert has(m.conns, cid) && arg0 == m.conns[cid].readC && base(arg1) == base(buf) && off(arg1) == 0 && len(arg1) == int(cnt)
+//@   at call io.ReadFull#2 assert base(arg1) == base(buf) && off(arg1) == 0 && len(arg1) == int(cnt) && fresh(buf)
 
 // creating a multiplexer starts its goroutines; for the callers only this matters:
 //@ func Multiplex
